@@ -14,7 +14,7 @@ RULE = ("C03 systems with mixed residue sizes in cubic and rectangular boxes fro
         "mean size (rel 1e-9) unless it is a start placement, which must be a row of the start grid; no positioned "
         "residue within 0.1 nm; brute-force minimum-image 12-6 force from positioned non-neighbours inside the "
         "cut-off <= max force. One case in forty supplies 5001-5600 single-bead molecules so that the engine "
-        "keeps its placements in a second neighbour tree. non-trivial = >=1 accepted step that crosses a box face and >=2 residue sizes; "
+        "keeps its placements in a second neighbour tree; one in twelve lists the chains to build before supplied single-bead molecules, with user start points on or next to supplied beads. non-trivial = >=1 accepted step that crosses a box face and >=2 residue sizes; "
         "distinct = spec hash")
 ASSUMPTIONS = ["residue sizes are the values in Topology.volumes for the residue's template key (captured)",
                "the cut-off is the engine's own (twice the largest size)", "time-outs are inconclusive"]
